@@ -373,6 +373,13 @@ def _wrap(v, ty):
     return v
 
 
+def _num(v):
+    """chars take part in arithmetic and comparisons as their code points"""
+    if isinstance(v, str) and len(v) == 1:
+        return ord(v)
+    return v
+
+
 def fold(t, env, calls=None):
     """env: {param index: python value}; calls: resolver name -> (callable | None) for pure std helpers."""
     k = t[0]
@@ -391,8 +398,8 @@ def fold(t, env, calls=None):
                 raise CannotFold("constant without value: %r" % (t[1],))
         return v
     if k == "bin":
-        a = fold(t[2], env, calls)
-        b = fold(t[3], env, calls)
+        a = _num(fold(t[2], env, calls))
+        b = _num(fold(t[3], env, calls))
         ty = t[4] if len(t) > 4 else None
         op = t[1]
         if op.endswith("Unchecked"):
@@ -447,7 +454,7 @@ def fold(t, env, calls=None):
             return _wrap(-a, ty)
         raise CannotFold("unary operator " + t[1])
     if k == "cast":
-        a = fold(t[2], env, calls)
+        a = _num(fold(t[2], env, calls))
         if isinstance(a, bool):
             a = int(a)
         if t[1] in INT_BITS and isinstance(a, int):
